@@ -18,7 +18,7 @@ from ..loader import dotted, norm
 from .c04 import length_obligations
 
 
-def _sidecars_by_evaluation(ctx, rep, ge, he) -> bool:
+def _sidecars_by_evaluation(ctx, rep, ge, he, rule="R15e") -> bool:
     """handleeaext('/sel', vfs) evaluated with two configured extensions and scripted sidecar files: each configured block
     that is not set yet gets the text of <selector><extension>, read in text mode, its lines right-stripped and joined by
     newlines; a block that is already set is not read again.  True when the evaluation decided."""
@@ -28,8 +28,8 @@ def _sidecars_by_evaluation(ctx, rep, ge, he) -> bool:
     if len(he.params) < 3:
         return False
     table = {".abstract": "ABSTRACT", ".keywords": "KEYWORDS"}
-    filelines = ["first line  \n", "\tsecond line\r\n", "last"]
-    wanttext = "first line\n\tsecond line\nlast"
+    filelines = ["first line  \n", "\tsecond\x0cpage\x0b line\r\n", "\n", "last"]
+    wanttext = "first line\n\tsecond\x0cpage\x0b line\n\nlast"
     all_problems = []
     for preset in ({}, {"ABSTRACT": "set by a link file"}):
         holder = {}
@@ -103,7 +103,7 @@ def _sidecars_by_evaluation(ctx, rep, ge, he) -> bool:
             if text != wanttext:
                 all_problems.append(f"a sidecar with the lines {filelines!r} becomes the block text {text!r} instead of {wanttext!r}")
                 break
-    rep.add("R15e", f"{he.qualname}: sidecar lines become the block's lines", not all_problems, ctx.where(he), "; ".join(all_problems[:2]), key="R15e|handleeaext")
+    rep.add(rule, f"{he.qualname}: sidecar lines become the block's lines", not all_problems, ctx.where(he), "; ".join(all_problems[:2]), key=f"{rule}|handleeaext")
     return True
 
 
